@@ -266,7 +266,21 @@ def _face_loop_pair(rng):
     return [f, [pl.xy_to_xyz(q) for q in loop], poly, 0.01]
 
 
-CUSTOM = {'Face3D__remove_colinear': _face_loop_pair, 'Face3D_init_plane': _face_and_plane, 'intersect_line3d_sphere_seg': _line_through_sphere('seg'),
+def _mesh_and_pattern(cls):
+    def gen(rng):
+        from ladybug_geometry.geometry2d import Mesh2D
+        from ladybug_geometry.geometry3d import Mesh3D
+        v, f = Bd.tri_quad_mesh2d(rng)
+        m = Mesh2D([Bd.P2(p) for p in v], f) if cls == 'Mesh2D' else Mesh3D([Bd.P3((p[0], p[1], 0.5 * p[0])) for p in v], f)
+        pat = [rng.random() < 0.6 for _ in f]
+        if not any(pat):
+            pat[rng.randrange(len(pat))] = True
+        return [m, pat]
+    return gen
+
+
+CUSTOM = {'Mesh2D_remove_faces_only': _mesh_and_pattern('Mesh2D'), 'Mesh3D_remove_faces_only': _mesh_and_pattern('Mesh3D'),
+          'Face3D__remove_colinear': _face_loop_pair, 'Face3D_init_plane': _face_and_plane, 'intersect_line3d_sphere_seg': _line_through_sphere('seg'),
           'intersect_line3d_sphere_ray': _line_through_sphere('ray'), 'intersect_plane_sphere': _plane_through_sphere}
 # roots whose evaluation inside Coq is slow (rational blow-up through the square root): one input, thorough tier only
 SLOW = {'Face3D_init', 'Face3D_sub_rects_from_rect_ratio', 'Face3D_sub_rects_from_rect_dimensions'}
